@@ -82,4 +82,13 @@ TEXT["C18"] = {
     "note": _TB + "Partial: parking_lot/std lock semantics and atomicity of OS file operations inside one critical section are assumed; one key is modelled (other keys share only the map mutex / lock registry).",
     "technique": "Lean 4 linearization-point proof with ghost state + exhaustive schedule replay on the real stores through yield hooks",
 }
+TEXT["C16"] = {
+    "level": "Machine-checked proof that operations on different keys commute and do not affect each other's results, that ANY interleaving of any number of pairwise key-disjoint tasks ends in the "
+             "sequential store and gives each task exactly the results it gets alone, that array writes touch only (and reads depend only on) the keys of the chunks meeting the region, and that "
+             "chunk-disjoint regions have disjoint key sets; the implementation is run at concurrency targets {1,2,3,8,16} x chunk_concurrent_minimum {1,4} and with 2-3 client threads on "
+             "chunk-disjoint bands under a seeded turn-taking store wrapper, every outcome compared with the sequential model; completion under internal parallelism is monitored by hook H5 "
+             "(is a cache lock held while its fill closure runs?).",
+    "note": _TB + "Partial: rayon's work-stealing schedules and real blocking are not in the model (the probe turns the self-deadlock pattern into a deterministic report); client interleavings are sampled on the implementation, the theorem covers all.",
+    "technique": "Lean 4 commutation/interleaving proof over per-key store operations + differential runs over concurrency settings and scheduled client threads",
+}
 NOT_YET = {}
